@@ -67,6 +67,7 @@ type cfg struct {
 	Oversize []byte // raw offending header (+ some body bytes) inserted after the first message; the rest of Seq follows it
 	MaxSize  uint32
 	Queue    int  // received-message queue size (0 = 16)
+	Ping     bool // the connection has a ping of its own outstanding; the stream starts with the matching Pong; the message pool recycles
 	Busy     bool // the handler of the first message does not return until the reader has consumed what it can
 }
 
@@ -85,6 +86,9 @@ func (c cfg) String() string {
 	}
 	if c.Busy {
 		ov += fmt.Sprintf(" queue=%d first-handler-busy", c.Queue)
+	}
+	if c.Ping {
+		ov += " own-ping-outstanding recycling-pool"
 	}
 	return fmt.Sprintf("tcp stream [%s] read-buffer=%d %s%s", strings.Join(n, ","), c.Cache, cuts, ov)
 }
@@ -127,7 +131,11 @@ func scenario(c cfg) *mcx.Scenario {
 					q = c.Queue
 				}
 				handlerGo := !c.Busy
-				w := tcpw.New(tcpw.Opts{CacheSize: c.Cache, MaxMsgSize: maxSize, DisableCSM: true, QueueSize: q,
+				poolSize := uint32(0)
+				if c.Ping {
+					poolSize = 16
+				}
+				w := tcpw.New(tcpw.Opts{CacheSize: c.Cache, MaxMsgSize: maxSize, DisableCSM: true, QueueSize: q, PoolSize: poolSize,
 					Handler: func(_ *responsewriter.ResponseWriter[*client.Conn], r *pool.Message) {
 						vrt.WaitUntil("application handler busy", func() bool { return handlerGo })
 						b, _ := r.ReadBody()
@@ -136,8 +144,27 @@ func scenario(c cfg) *mcx.Scenario {
 					OnSignal: func(code codes.Code) { signals = append(signals, code.String()) }})
 				// the stream
 				var stream []byte
-				var bounds []int // offsets at which a frame starts / a header ends
 				var wantHandled, wantSignals []string
+				if c.Ping {
+					cancelPing, errP := w.CC.AsyncPing(func() {})
+					if errP != nil {
+						fail("ENGINE/setup", "AsyncPing failed: %v", errP)
+						return
+					}
+					defer cancelPing()
+					vrt.Quiesce("env: ping on the wire")
+					for _, m := range w.NewOuts() {
+						if m.Code == codes.Ping {
+							stream = append(stream, tcpw.Encode(message.Message{Code: codes.Pong, Token: m.Token})...)
+						}
+					}
+					if len(stream) == 0 {
+						fail("ENGINE/setup", "the connection wrote no Ping")
+						return
+					}
+					wantSignals = append(wantSignals, codes.Pong.String())
+				}
+				var bounds []int // offsets at which a frame starts / a header ends
 				offendingHeaderEnd := -1
 				for i, sh := range c.Seq {
 					if i == 1 && c.Oversize != nil {
@@ -330,6 +357,10 @@ func main() {
 	}
 	for _, q := range []int{1, 2} {
 		scs = append(scs, scenario(cfg{Seq: burst, Cache: 2048, MaxCuts: ev.Pick(r, 0, 1), Queue: q, Busy: true}))
+	}
+	// (3d) the Pong answering the connection's own ping, followed by coalesced frames; the message pool recycles objects
+	for _, ca := range []uint16{7, 64, 2048} {
+		scs = append(scs, scenario(cfg{Seq: []shape{small[1], small[8], small[2]}, Cache: ca, MaxCuts: ev.Pick(r, 1, 2), Ping: true}))
 	}
 	// (4) oversize frames: max message size 64; a valid message, the offending header (+4 body bytes), a valid message
 	for _, ov := range [][]byte{
